@@ -917,22 +917,35 @@ func LoadProgram(repo string, props map[string]bool) (*Program, error) {
 		}
 	}
 	// loop invariants / ghost statements are injected into in-memory copies of the source files
-	injected := map[string][]byte{}
 	var injDirs []string
 	for d := range allItems {
 		injDirs = append(injDirs, d)
 	}
 	sort.Strings(injDirs)
-	for _, d := range injDirs {
-		ov, err := injectLoops(repo, d, allItems[d], func(w string) { p.Warnings = append(p.Warnings, w) })
-		if err != nil {
-			return nil, err
+	var injected map[string][]byte
+	var injRanges []injRange
+	doInject := func(warn bool) error {
+		injected = map[string][]byte{}
+		injRanges = nil
+		for _, d := range injDirs {
+			ov, err := injectLoops(repo, d, allItems[d], func(w string) {
+				if warn {
+					p.Warnings = append(p.Warnings, w)
+				}
+			}, &injRanges)
+			if err != nil {
+				return err
+			}
+			for k, v := range ov {
+				injected[k] = v
+			}
 		}
-		for k, v := range ov {
-			injected[k] = v
-		}
+		p.Injected = injected
+		return nil
 	}
-	p.Injected = injected
+	if err := doInject(true); err != nil {
+		return nil, err
+	}
 	for attempt := 0; attempt < 6; attempt++ {
 		overlay := map[string][]byte{}
 		for k, v := range injected {
@@ -966,6 +979,7 @@ func LoadProgram(repo string, props map[string]bool) (*Program, error) {
 		// map errors to harnesses
 		nerr := 0
 		staleNow := 0
+		reinject := false
 		packages.Visit(pkgs, nil, func(pk *packages.Package) {
 			for _, e := range pk.Errors {
 				nerr++
@@ -1002,9 +1016,38 @@ func LoadProgram(repo string, props map[string]bool) (*Program, error) {
 						continue
 					}
 				}
+				if len(parts) >= 2 {
+					// an error inside a function that carries injected loop invariants / ghost statements:
+					// the contract no longer fits the code (renamed variables, restructured loop)
+					if _, ok := injected[parts[0]]; ok {
+						var ln int
+						fmt.Sscanf(parts[1], "%d", &ln)
+						hit := false
+						for _, rg := range injRanges {
+							if rg.path == parts[0] && ln >= rg.startLn && ln <= rg.endLn {
+								for _, it := range rg.items {
+									if it.Stale == "" {
+										it.Stale = "loop/ghost specification does not type-check against the current code: " + e.Msg
+										staleNow++
+										reinject = true
+									}
+									hit = true
+								}
+							}
+						}
+						if hit {
+							continue
+						}
+					}
+				}
 				p.Warnings = append(p.Warnings, fmt.Sprintf("load error %s: %s", e.Pos, e.Msg))
 			}
 		})
+		if reinject {
+			if err := doInject(false); err != nil {
+				return nil, err
+			}
+		}
 		if nerr > 0 && staleNow > 0 {
 			continue // regenerate without the stale items
 		}
